@@ -3682,6 +3682,9 @@ def solve(m: types.Model, d: types.Data):
   if d.njmax == 0 or m.nv == 0:
     wp.copy(d.qacc, d.qacc_smooth)
     d.solver_niter.fill_(0)
+    if m.nv:
+      # the integrators (Euler's implicit damping, implicit/implicitfast) take efc.Ma = M @ qacc as their right-hand side
+      support.mul_m(m, d, d.efc.Ma, d.qacc)
   else:
     ctx = _create_solver_context(m, d)
     _solve(m, d, ctx)
